@@ -1,0 +1,16 @@
+//go:build verif
+
+// Contracts for the deductive verifier in /verif (govc). Only compiled with -tags verif.
+
+package hookstate
+
+// ---- C07: two hooks of the same snap never run at once ----------------------------------------------
+//
+// The predicate registered with the task runner: a run-hook candidate is refused as soon as some
+// running task is a run-hook task whose hook setup names the same snap - whatever else the two setups
+// contain (component, hook name, ...). Stated per iteration: the loop only moves on past a running task
+// that is not a hook, whose setup cannot be read, or that belongs to another snap.
+//@ func Manager$1
+//@   props C07
+//@   ensures [not-a-hook] thisTask.kind != "run-hook" ==> !result
+//@   loop 0: step [same-snap-blocks] t.kind != "run-hook" || taskGetErr(t, "hook-setup") != nil || hooksup.Snap != thisSnapName
